@@ -443,6 +443,12 @@ def gen_wrap_text(rng):
             # nested: a repetition inside a repetition referring to a label of the text
             src += ["\trept 2", "\tirpc ch,\"12\"", "\tdb ch,%s&255" % t, "\tendm", "\tendm"]
             items.append(("bytes", [1, ("lo", t), 2, ("lo", t)] * 2))
+        elif r < 0.93:
+            # text of any 8-bit character set inside a string constant (and in the comment behind it): the manual places no
+            # restriction on the characters of a string, whatever way the line reaches the assembler
+            txt = "".join(rng.choice("Aaz09 \xe4\xf6\xfc\xdf\xc4\xa7\xb5\xff\x80\xe9") for _ in range(rng.randrange(1, 7)))
+            src.append("\tdb \"%s\",%d\t; %s" % (txt, len(txt), txt))
+            items.append(("bytes", list(txt.encode("latin-1")) + [len(txt)]))
         else:
             v = rng.randrange(256)
             src.append("\tdb %d" % v)
